@@ -60,7 +60,60 @@ def within(out, box):
 
 
 # ----------------------------------------------------------------------------------------------
+# scopes around 2**15 and 2**16 variables (the documented limit is "the number of variables is an unsigned 16-bits integer"):
+# boxes whose solutions are known without enumeration
+BIG_SIZES = (32767, 32768, 33001, 40000, 65535)
+
+
+def big_cases():
+    return [{"big": kind, "n": n} for kind in ("alldifferent", "gcc", "no_sub_cycle") for n in BIG_SIZES]
+
+
+def check_big(case):
+    kind, n = case["big"], case["n"]
+    tags = ["type:" + kind, "big-scope"]
+    if kind in ("alldifferent", "gcc"):
+        # pairwise disjoint domains {3i, 3i+1}: every tuple of the box is a solution
+        box = [[3 * i, 3 * i + 1] for i in range(n)]
+        params = [] if kind == "alldifferent" else [0] + [0] * (3 * n) + [1] * (3 * n)
+        keep = None
+    else:
+        # vertex 0 goes to g; the circuit 0 -> g -> every other vertex in increasing order -> 0 is in the box
+        g = n - 1
+        box = [[0, n - 1] for _ in range(n)]
+        box[0] = [g, g]
+        params = []
+        others = [v for v in range(1, n) if v != g]
+        keep = [0] * n
+        keep[0] = g
+        prev = g
+        for v in others:
+            keep[prev] = v
+            prev = v
+        keep[prev] = 0
+    try:
+        status, out = engine(nx.compute_domains, kind, box, params)
+    except EngineError as e:
+        return Verdict(False, "%s over %d variables: filtering call raised %s" % (kind, n, e.bucket), True, tags)
+    if status == INC:
+        return Verdict(False, "%s over %d variables (%s): INCONSISTENCY reported on a satisfiable box" % (kind, n, "pairwise disjoint domains {3i, 3i+1}" if keep is None else "vertex 0 -> %d, all other vertices free" % (n - 1)), True, tags)
+    out = [list(map(int, o)) for o in out]
+    if not within(out, box):
+        return Verdict(False, "%s over %d variables: output box not contained in the input box" % (kind, n), True, tags)
+    if keep is None:
+        bad = [i for i in range(n) if out[i] != box[i]]
+        if bad:
+            return Verdict(False, "%s over %d variables with pairwise disjoint domains: variable %d narrowed from %s to %s although every tuple is a solution" % (kind, n, bad[0], box[bad[0]], out[bad[0]]), True, tags)
+    else:
+        bad = [i for i in range(n) if not (out[i][0] <= keep[i] <= out[i][1])]
+        if bad:
+            return Verdict(False, "no_sub_cycle over %d vertices, 0 -> %d: the successor %d of vertex %d, part of a Hamiltonian circuit of the box, was removed (domain now %s)" % (n, n - 1, keep[bad[0]], bad[0], out[bad[0]]), True, tags)
+    return Verdict(True, "", True, tags)
+
+
 def check_c05(case):
+    if "big" in case:
+        return check_big(case)
     assert in_contract(case["type"], case["params"], case["box"]), case
     name = case["type"]
     sols, _ = solutions(case)
@@ -343,7 +396,7 @@ def jobs(prop, tier):
         {"name": "fuzz", "mode": "I", "shards": 2 if tier == "quick" else 8},
         # the same oracles on the compiled propagators (direct calls of the jitted functions)
         {"name": "rand-J", "mode": "J", "shards": 2 if tier == "quick" else 8},
-    ] + ([{"name": "exh-J", "mode": "J", "shards": 8}] if tier != "quick" else [])
+    ] + ([{"name": "exh-J", "mode": "J", "shards": 8}] if tier != "quick" else []) + ([{"name": "big-J", "mode": "J", "shards": 1, "case_timeout": 600}] if prop == "C05" else [])
 
 
 def run_fuzz(prop, shard, seed, tier):
@@ -442,6 +495,22 @@ def run(prop, job, shard, nshards, seed, tier):
         for f in res["failures"]:
             f.pop("_key", None)
         return res
+    if job["name"] == "big-J":
+        from vlib.run import journal
+
+        jr = journal()
+        for case in big_cases():
+            jr.begin(case)
+            v = check(case)
+            rec.evaluations += 1
+            for t in v.tags:
+                rec.tag(t)
+            if not v.ok:
+                rec.failures.append({"case": case, "msg": v.msg})
+        jr.end()
+        res = rec.result()
+        res["exhaustive_nontrivial"] = len(big_cases())
+        return res
     if job["name"] == "fuzz":
         return run_fuzz(prop, shard, seed, tier)
     if job["name"] in ("rand", "rand-J"):
@@ -466,7 +535,8 @@ def replay(prop, case):
 RULES = {
     "C05": "cases = (type, parameters, box): every box of the small scope enumerated + Hypothesis boxes beyond it; "
     "non-trivial = input box is not a point and the brute-force solution set is a strict subset of the box; "
-    "distinct = exhaustive cases are distinct by construction, random cases by SHA-1 of the canonical JSON and counted only outside the exhaustive scope",
+    "distinct = exhaustive cases are distinct by construction, random cases by SHA-1 of the canonical JSON and counted only outside the exhaustive scope; "
+    "plus 15 scopes of 32767..65535 variables (alldifferent / gcc on pairwise disjoint domains, no_sub_cycle with one ground vertex) whose solutions are known without enumeration",
     "C06": "cases = point boxes (every tuple of the small scope + random points) and non-point boxes (collapse detection); "
     "non-trivial = the point violates the documented relation, or a single call collapsed a non-point box to a point; distinct as in C05",
     "C07": "cases = boxes for the types that can answer ENTAILMENT; non-trivial = status ENTAILMENT on a box that is not a point; distinct as in C05",
